@@ -458,3 +458,125 @@ func c12R33(ic *IC, r *Report) {
 	r.Check(found != "", "R12.33", "typecheck.index/constant-index-not-negative", ic.pos(ix.Decl.Pos()), "a negative constant index is an error whatever the upper bound ("+found+")",
 		"in typecheck.index "+why+": for a slice, a string or a make size there is no constant upper bound and a[-1], s[-1], a[-1:] and make([]int, -1) are accepted; they fail at run time in reflect, after the statements before them were executed (compiled Go: invalid argument: index -1 (constant of type int) must not be negative)")
 }
+
+func init() {
+	ruleText["R12.35"] = "only a variable, an indirection, a field or an element can be assigned: each case of cfg that stores into its operand - the assignStmt/defineStmt case for every destination of its pair loop, and the incDecStmt case - tests the form of the destination (isDestExpr) under a condition that reports an error; the two cases are siblings and must agree (the incDecStmt case also refuses a constant operand, as the assignment case does)"
+}
+
+// c12R35: D137. f() = 2 was accepted (and did nothing), c++ on a constant failed in reflect.
+func c12R35(ic *IC, r *Report) {
+	info := ic.Info
+	cfgFn := ic.fn(r, "Interpreter.cfg")
+	if cfgFn == nil {
+		return
+	}
+	for _, k := range [][2]string{{"assignStmt", "interp.scope.isRedeclared"}, {"incDecStmt", "interp.typecheck.unaryExpr"}} {
+		var cc *ast.CaseClause
+		ast.Inspect(cfgFn.Decl.Body, func(q ast.Node) bool {
+			c, ok := q.(*ast.CaseClause)
+			if !ok {
+				return true
+			}
+			for _, l := range kindLabels(ic, c) {
+				if l == k[0] && len(callsIn(info, c, true, k[1])) > 0 {
+					cc = c
+				}
+			}
+			return true
+		})
+		if cc == nil {
+			r.Errorf("R12.35: the %s case of cfg (post-order) was not found", k[0])
+			continue
+		}
+		found := ""
+		ast.Inspect(cc, func(q ast.Node) bool {
+			ifs, ok := q.(*ast.IfStmt)
+			if !ok || len(callsIn(info, ifs.Body, true, "interp.node.cfgErrorf")) == 0 {
+				return true
+			}
+			if len(callsIn(info, ifs.Cond, true, "interp.isDestExpr")) > 0 {
+				found = ic.pos(ifs.Pos())
+			}
+			return true
+		})
+		r.Check(found != "", "R12.35", "cfg/case:"+k[0]+"/destination-form-checked", ic.pos(cc.Pos()), "the form of the destination decides an error ("+found+")",
+			"the "+k[0]+" case of cfg never tests the form of its destination: `f() = 2` is accepted and does nothing, `f()++` and `c++` on a constant fail at run time in reflect (compiled Go: cannot assign to f() (neither addressable nor a map index expression))")
+	}
+	if de := ic.F["isDestExpr"]; de == nil || de.Decl.Body == nil {
+		r.Errorf("R12.35: isDestExpr not found")
+	} else {
+		// the forms accepted are those of the specification: no call, literal or operation
+		bad := ""
+		ast.Inspect(de.Decl.Body, func(q ast.Node) bool {
+			cc, ok := q.(*ast.CaseClause)
+			if !ok {
+				return true
+			}
+			for _, e := range cc.List {
+				if id := identOf(e); id != nil {
+					switch id.Name {
+					case "identExpr", "indexExpr", "selectorExpr", "starExpr", "parenExpr":
+					default:
+						if _, isConst := info.Uses[id].(*types.Const); isConst {
+							bad = id.Name
+						}
+					}
+				}
+			}
+			return true
+		})
+		r.Check(bad == "", "R12.35", "isDestExpr/forms", ic.pos(de.Decl.Pos()), "only identifiers, index, selector, indirection and parenthesised forms are destinations",
+			"isDestExpr accepts the node kind "+bad+" as the destination of an assignment: the Go specification allows only addressable operands, map index expressions and the blank identifier")
+	}
+}
+
+func init() {
+	ruleText["R12.36"] = "the values forwarded by `return f()` are checked one by one: in the returnStmt case of cfg, next to the operand loop, the results of a single call operand that returns several values are compared (assignableTo) with the result types of the returning function inside a loop over their positions - the operand loop alone sees the first value only (= R01.33's sibling on the type side)"
+}
+
+// c12R36: D138. func f() (int, int) { return g() } with g() (int, string) failed at run time.
+func c12R36(ic *IC, r *Report) {
+	info := ic.Info
+	cfgFn := ic.fn(r, "Interpreter.cfg")
+	if cfgFn == nil {
+		return
+	}
+	var cc *ast.CaseClause
+	ast.Inspect(cfgFn.Decl.Body, func(q ast.Node) bool {
+		c, ok := q.(*ast.CaseClause)
+		if !ok {
+			return true
+		}
+		for _, l := range kindLabels(ic, c) {
+			if l == "returnStmt" && len(callsIn(info, c, true, "interp.mustReturnValue")) > 0 {
+				cc = c
+			}
+		}
+		return true
+	})
+	if cc == nil {
+		r.Errorf("R12.36: the returnStmt case of cfg was not found")
+		return
+	}
+	found := ""
+	ast.Inspect(cc, func(q ast.Node) bool {
+		loop, ok := q.(*ast.ForStmt)
+		if !ok {
+			return true
+		}
+		// a loop over positions in which a result of the callee (itype.out) is compared with a type
+		if len(callsIn(info, loop.Body, true, "interp.itype.out")) == 0 {
+			return true
+		}
+		ast.Inspect(loop.Body, func(z ast.Node) bool {
+			ifs, ok := z.(*ast.IfStmt)
+			if ok && len(callsIn(info, ifs.Cond, true, "interp.itype.assignableTo")) > 0 && len(callsIn(info, ifs.Body, true, "interp.node.cfgErrorf")) > 0 {
+				found = ic.pos(ifs.Pos())
+			}
+			return true
+		})
+		return true
+	})
+	r.Check(found != "", "R12.36", "cfg/case:returnStmt/forwarded-values-checked-one-by-one", ic.pos(cc.Pos()), "each result of a forwarded call is compared with the result type at its position ("+found+")",
+		"the returnStmt case of cfg compares only its operands with the result types: for `return g()` with g returning several values the second and later values are never checked, so func f() (int, int) { return g() } with g() (int, string) is accepted and fails at run time in reflect.Set (compiled Go: cannot use g() (value of type string) as int value in return statement)")
+}
